@@ -16,6 +16,10 @@ CLAIMED = {
    text="Coq theorems (any n, any sign, any operation): perfect_op / opposite_op / independent_op equal the sorted lower and upper endpoints of the exact interval combinations (C01 corner hulls) of step k with step k / step n-1-k / all n*n pairs; condensation picks order statistic k(n+1), inside the k-th block; + on well-formed operands is step-wise with no reordering; opposite arithmetic on the negated operand = perfect arithmetic on the step-wise negation (mirrored pairing of - and /). Tie: bit-exact in-Coq differential run of kernels (stubs) and Pbox.add/sub/mul/div(p|o|i) + bare operators at 200 steps; exact random-set oracle.",
    note="Trusted: kernel, Reals axioms, hand model validated by the differential run; condensation index modelled on exact integers (numpy computes it in floats).",
    technique="Coq refinement proof (model = random-set spec) + in-Coq differential run + exact random-set oracle", ref="5/C03"),
+ "C06": dict(
+   text="Coq theorems for every well-formed p-box of the configured length and every real c: P op c for a map nondecreasing in P keeps every step's image in place, a decreasing map exchanges and reverses the bounds (step k = image of step n-1-k); -P, -(-P)=P, reciprocal of a one-signed p-box (zero in the support raises), any map monotone on a domain containing the support, c-P = -(P-c), P*0 = 0; the Staircase constructor (incl. the lexicographic list comparison of left_right_switch) is part of the model. Tie: bit-exact in-Coq differential run over 14 operations x 4 number kinds x 8 p-box kinds at 200 steps + exact step-image oracle + law checks.",
+   note="Trusted: kernel, Reals axioms, hand model of pbox_number_ops/__neg__/reciprocal/_unary_template/Staircase validated by the differential run; numpy exp/log/sqrt/power enter as oracle arrays; zero-straddling P**c is oracle-only.",
+   technique="Coq proof over the Staircase-constructor model + in-Coq differential run + exact step-image oracle", ref="5/C06"),
 }
 NA_REASON = "no check registered yet in this revision of the framework (work in progress, see DESIGN.md section 9)"
 base = json.load(open("/root/.vp/BASELINE.json"))
